@@ -253,6 +253,23 @@ pub fn build_target(r: &mut Rng, full: bool, variant: u64) -> Result<Target, Str
         }
         let _ = h.backup(i % 2 == 0)?;
     }
+    // a snapshot as a stream backup (stdin) leaves it: the file node carries size 0 (the size is not known when the node
+    // is made) but lists content blobs - check must look at those as at any others
+    if r.chance(1, 2) {
+        let mut m = crate::model::ModelTree::new();
+        let n = h.cfg.max * 2 + 33;
+        m.insert(crate::model::pk("stream.bin"), crate::model::Entry { kind: crate::model::Kind::File(std::sync::Arc::new(r.bytes(n))), mode: 0o644, mtime: (1_650_000_777, 0), hardlink: None });
+        let root = std::path::PathBuf::from(crate::repo::ROOT);
+        let mut src = m.synth_source(&root, crate::model::Frag::Whole);
+        for e in &mut src.entries {
+            if e.data.is_some() {
+                e.node.meta.size = 0;
+            }
+        }
+        h.time += 100;
+        let repo = h.env.ids()?;
+        let _ = repo.archive(&rustic_core::BackupOptions::default(), &src, crate::repo::snap_at(h.time, "stream"), &[root]).map_err(|e| errstr(&e))?;
+    }
     if variant % 2 == 1 {
         // history with forget + prune so that marked packs / repacked packs exist
         let _ = Cmd::Forget { positions: vec![0] }.run(&h.env);
